@@ -450,9 +450,10 @@ func init() {
 			runGlobalMapWrite(p, r)
 			runConstIndex(p, r)
 			runNilArg(p, r, e.entries)
+			runTracebackNil(p, r)
 			runRLockWrite(p, r, "RLOCK-WRITE")
 		},
-		MinCounts: map[string]int{"PANIC-SINK": 15, "VARIADIC-INDEX": 2, "RESULT-INDEX": 8, "NIL-ARG": 25},
+		MinCounts: map[string]int{"PANIC-SINK": 15, "VARIADIC-INDEX": 2, "RESULT-INDEX": 8, "NIL-ARG": 25, "TRACEBACK-NIL": 2},
 		Trusted:   append([]string{"the table of argument-panicking library functions and the audit table in sa/internal/rules/c17.go"}, trustedBase...),
 		Controls: []core.Control{
 			{Name: "unlocked-pattern-cache", Rule: "GLOBAL-MAP-WRITE", File: "pkg/mods/re/re.go", Old: "func makePattern(p string, posix, longest bool) (*regexp.Regexp, error) {\n\tpattern, err := compile(p, posix)\n\tif err != nil {\n\t\treturn nil, err\n\t}\n", New: "var patternCache = map[string]*regexp.Regexp{}\n\nfunc makePattern(p string, posix, longest bool) (*regexp.Regexp, error) {\n\tif c, ok := patternCache[p]; ok && !posix && !longest {\n\t\treturn c, nil\n\t}\n\tpattern, err := compile(p, posix)\n\tif err != nil {\n\t\treturn nil, err\n\t}\n\tif !posix && !longest {\n\t\tpatternCache[p] = pattern\n\t}\n", Fire: true, Want: "patternCache"},
@@ -464,6 +465,7 @@ func init() {
 			{Name: "nil-check-after-use", Rule: "NIL-ARG", File: "pkg/mods/flag/flag.go", Old: "\tif fn == nil {\n\t\treturn errs.BadValue{What: \"function to call\", Valid: \"function\", Actual: \"$nil\"}\n\t}\n\tif argsVal == nil {", New: "\tif len(fn.OptNames) > 64 {\n\t\treturn errs.BadValue{What: \"function to call\", Valid: \"function with at most 64 options\", Actual: \"more\"}\n\t}\n\tif fn == nil {\n\t\treturn errs.BadValue{What: \"function to call\", Valid: \"function\", Actual: \"$nil\"}\n\t}\n\tif argsVal == nil {", Fire: true, Want: "flag:call"},
 			{Name: "benign-nil-check-in-helper-order", Rule: "NIL-ARG", File: "pkg/eval/builtin_fn_time.go", Old: "func timeCmd(fm *Frame, opts timeOpt, f Callable) error {\n\tif f == nil {\n\t\treturn errs.BadValue{What: \"function\", Valid: \"function\", Actual: \"$nil\"}\n\t}\n", New: "func timeCmd(fm *Frame, opts timeOpt, f Callable) error {\n\tif f != nil {\n\t\treturn timeIt(fm, opts, f)\n\t}\n\treturn errs.BadValue{What: \"function\", Valid: \"function\", Actual: \"$nil\"}\n}\n\nfunc timeIt(fm *Frame, opts timeOpt, f Callable) error {\n", Fire: false},
 			{Name: "revert-fix-typed-var-nil", Rule: "PANIC-SINK", File: "pkg/eval/vars/ptr.go", Old: "\tif val == nil {\n\t\tt := reflect.TypeOf(v.ptr).Elem()\n\t\tif t.Kind() != reflect.Interface || t.NumMethod() > 0 {\n\t\t\treturn errCannotSetToNil\n\t\t}\n\t}\n", New: "", Fire: true, Want: "NewEvaler"},
+			{Name: "revert-fix-deprecate-from-a-hook", Rule: "TRACEBACK-NIL", File: "pkg/eval/builtin_fn_misc.go", Old: "\tif fm.traceback != nil && fm.traceback.Next != nil {", New: "\tif fm.traceback.Next != nil {", Fire: true, Want: "deprecate"},
 			{Name: "revert-fix-is-compares-interfaces", Rule: "PANIC-SINK", File: "pkg/eval/builtin_fn_pred.go", Old: "\t\tif !identical(args[i], args[i+1]) {", New: "\t\tif args[i] != args[i+1] {", Fire: true, Want: "eval.is"},
 			{Name: "collect-length-believed", Rule: "RESULT-INDEX", File: "pkg/eval/builtin_fn_container.go", Old: "\t\tif len(elems) != 2 {\n\t\t\terrMakeMap = fmt.Errorf(\"internal bug: collected %v values\", len(elems))\n\t\t\treturn\n\t\t}\n", New: "", Fire: true, Want: "makeMap"},
 			{Name: "revert-fix-negative-fd", Rule: "PANIC-SINK", File: "pkg/eval/compile_effect.go", Old: "if dst < 0 || dst > maxRedirFD {", New: "if dst > maxRedirFD {", Fire: true, Want: "growAccess", Quick: true},
